@@ -10,6 +10,8 @@ mod c07;
 mod c08;
 mod c10;
 mod c11;
+mod c14;
+mod c15;
 
 pub type Gen = fn(&mut util::Rng, &str) -> String;
 pub type Exec = fn(&[&str]) -> String;
@@ -20,6 +22,8 @@ fn table(prop: &str) -> Option<(Gen, Exec)> {
         "C08" => Some((c08::gen, c08::exec)),
         "C10" => Some((c10::gen, c10::exec)),
         "C11" => Some((c11::gen, c11::exec)),
+        "C14" => Some((c14::gen, c14::exec)),
+        "C15" => Some((c15::gen, c15::exec)),
         _ => None,
     }
 }
